@@ -21,7 +21,9 @@
    Atomic steps (each is one critical section or one call the others cannot
    observe half-way; see notes/C06.md for the commutation arguments):
      ArriveCheck r p now  NewRequest + the GetCount() >= max test
-     ArriveRegister r     shared-queue size test + registration (count++, maps)
+     ArriveRegister r     shared-queue size test + registration (count++, maps);
+                          with fix b the count test is repeated atomically with the
+                          registration, with fix d it is refused once StopAll has run
      ArrivePush r         queue.Enqueue (sorted insert with a fresh stamp)
      TickPop              DequeueIfValueRelevant + GetRequest + StartProcessing
      TickDecide b         quota answered b: b -> SetProcessedSuccess;
@@ -32,8 +34,8 @@
      Remove r             removeRequest: RemoveFromWatchList + queue.Remove
      Drain                drainQueue -> StopAll (runs on the loop's goroutine, once)
 
-   The code exists in eight variants (three independent switches); [fixed] is
-   the tree with patches/C06/fix-F-C06{a,b,c}.patch applied, [as_found] the tree
+   The code exists in sixteen variants (four independent switches); [fixed] is
+   the tree with patches/C06/fix-F-C06{a,b,c,d}.patch applied, [as_found] the tree
    before them.  The correspondence suites evaluate [code_variant]. *)
 From Coq Require Import List ZArith Bool.
 Import ListNotations.
@@ -61,10 +63,13 @@ Definition default_info : rinfo :=
 Record variant := {
   keep_stamp : bool;    (* a head that is put back keeps its enqueue stamp   (fix F-C06a) *)
   atomic_reg : bool;    (* slot test and registration are one atomic step    (fix F-C06b) *)
-  gated_drain : bool    (* StopAll goes through the StartProcessing gate     (fix F-C06c) *)
+  gated_drain : bool;   (* StopAll goes through the StartProcessing gate     (fix F-C06c) *)
+  closed_after_drain : bool (* no registration once StopAll has run        (fix F-C06d) *)
 }.
-Definition fixed : variant := {| keep_stamp := true; atomic_reg := true; gated_drain := true |}.
-Definition as_found : variant := {| keep_stamp := false; atomic_reg := false; gated_drain := false |}.
+Definition fixed : variant :=
+  {| keep_stamp := true; atomic_reg := true; gated_drain := true; closed_after_drain := true |}.
+Definition as_found : variant :=
+  {| keep_stamp := false; atomic_reg := false; gated_drain := false; closed_after_drain := false |}.
 
 Record cfg := { qmax : Z; smax : Z; ttl : Z; var : variant }.
 
@@ -167,6 +172,7 @@ Definition arrive_register (c : cfg) (s : state) (r : Z) : state :=
   match pc i with
   | PChecked =>
       if shared_full c s || (atomic_reg (var c) && (qmax c <=? count s))
+         || (closed_after_drain (var c) && drained s)
       then {| info := upd (info s) r (arrive i PGone (prio i) (expire i) (Some false));
               heap := heap s; watch := watch s; count := count s; next_stamp := next_stamp s;
               held := held s; drained := drained s; checked := removeZ r (checked s);
